@@ -18,7 +18,7 @@ EDITS = ['t.name', 't.schema', 't.alias', 't.note', 't.color', 'c.name', 'c.type
          'c.note', 'e.name', 'e.schema', 'e.add_item', 'e.item_name', 'r.type', 'r.inline', 'r.name', 'r.actions',
          't.add_column', 't.add_index', 't.delete_index', 'g.name', 'g.color', 'p.name', 'p.items', 's.text',
          'db.allow_properties', 'ix.flags', 'ix.name', 't.twin_index', 't.delete_last_index', 't.delete_last_index',
-         't.note_text', 'c.note_text', 'ix.note_text']
+         't.note_text', 'c.note_text', 'ix.note_text', 't.note_same', 'c.note_same']
 
 
 def apply_edit(rng, db, hd, kind, counter):
@@ -60,6 +60,13 @@ def apply_edit(rng, db, hd, kind, counter):
         elif kind == 't.note_text':
             # the text of the existing Note object, changed in place (not a new Note): whatever is stored is what renders
             put(lambda: t.note, 'text', rng.choice(['plain', '  indented', '\n\nblank lines around\n\n', '    a\n    b', 'tail  ', '']), 'table.note.text')
+        elif kind == 't.note_same':
+            # read - modify - write back the very same Note object
+            n_ = t.note
+            n_.text = rng.choice(['kept object', 'same note, new text'])
+            t.note = n_
+            if t.note is not n_ or t.note.text != n_.text:
+                lost.append('table.note = (its own note object) is not kept')
         elif kind == 'ix.note_text' and t.indexes:
             ix_ = rng.choice(t.indexes)
             put(lambda: ix_.note, 'text', rng.choice(['plain', '  indented', '\nlead', '']), 'index.note.text')
@@ -96,6 +103,12 @@ def apply_edit(rng, db, hd, kind, counter):
             put(lambda: c, 'type', rng.choice(E), 'column.type')
         elif kind == 'c.note_text':
             put(lambda: c.note, 'text', rng.choice(['plain', '  indented', '\n\nblank lines around\n', '    a\n    b', '']), 'column.note.text')
+        elif kind == 'c.note_same':
+            n_ = c.note
+            n_.text = rng.choice(['kept object', 'same note, new text'])
+            c.note = n_
+            if c.note is not n_ or c.note.text != n_.text:
+                lost.append('column.note = (its own note object) is not kept')
         elif kind == 'c.flags':
             f = rng.choice(['pk', 'unique', 'not_null', 'autoinc'])
             put(lambda: c, f, not getattr(c, f), 'column.' + f)
